@@ -40,8 +40,14 @@ func (e qExpr) sql() string {
 		}
 		return e.col.name
 	}
+	if n, ok := e.lit.(int64); ok && qZeroPad && n >= 0 {
+		return fmt.Sprintf("0%d", n)
+	}
 	return sqlLit(e.lit)
 }
+
+// qZeroPad is set while a query with zeroPad is rendered: non-negative integer literals get a leading zero.
+var qZeroPad bool
 
 type qAtom struct {
 	l, r qExpr
@@ -124,10 +130,17 @@ type qQuery struct {
 	limitFirst bool
 	mayReject  bool   // the statement may be rejected (e.g. as ambiguous); if it is answered, the answer must be right
 	lead       string // blanks in front of the text (shifts tokens relative to the scanner's buffer boundaries)
+	zeroPad    bool   // integer literals and LIMIT/OFFSET counts are written with a leading zero (still decimal)
 }
 
 func (q *qQuery) sql() string {
 	var sb strings.Builder
+	qZeroPad = q.zeroPad
+	defer func() { qZeroPad = false }()
+	pad := ""
+	if q.zeroPad {
+		pad = "0"
+	}
 	sb.WriteString(q.lead + "SELECT ")
 	for i, it := range q.items {
 		if i > 0 {
@@ -174,11 +187,11 @@ func (q *qQuery) sql() string {
 	}
 	lim := ""
 	if q.limit >= 0 {
-		lim = fmt.Sprintf(" LIMIT %d", q.limit)
+		lim = fmt.Sprintf(" LIMIT %s%d", pad, q.limit)
 	}
 	off := ""
 	if q.offset >= 0 {
-		off = fmt.Sprintf(" OFFSET %d", q.offset)
+		off = fmt.Sprintf(" OFFSET %s%d", pad, q.offset)
 	}
 	if q.limitFirst {
 		sb.WriteString(lim + off)
